@@ -258,15 +258,17 @@ def MonthdayRange.filter (r : MonthdayRange) (d : Day) : M Bool :=
     .ok ((yr.getD inYear == inYear) && wrappingContains lo hi (Cal.month d))
   | .date s so e eo => do
     let y := year d
-    match ← singleInterval s so e eo with
-    | some iv => pure (iv.1 ≤ d && d ≤ iv.2)
-    | none =>
-      match s, (s == e : Bool) with
-      | .fixed none m dd, true =>
-        match ← singleDayFind m dd so eo d (yearsAround y 1 1) with
-        | none => pure false
-        | some r => pure (r.1 ≤ d && d ≤ r.2)
-      | _, _ =>
+    match s, (s == e : Bool) with
+    | .fixed fy m dd, true =>
+      -- a single day, with or without a year: only the years where it exists
+      let years := match fy with | some fy => [(fy : Int)] | none => yearsAround y 1 1
+      match ← singleDayFind m dd so eo d years with
+      | none => pure false
+      | some r => pure (r.1 ≤ d && d ≤ r.2)
+    | _, _ =>
+      match ← singleInterval s so e eo with
+      | some iv => pure (iv.1 ≤ d && d ≤ iv.2)
+      | none =>
         let starts ← boundsOn s so true (yearsAround y 1 1)
         let ends ← boundsOn e eo false (yearsAround y 1 1)
         pure (isOpenFromIntervals d (intervalsFromBounds starts ends))
@@ -297,15 +299,16 @@ def MonthdayRange.hint (r : MonthdayRange) (d : Day) : M (Option Day) :=
       | _, _, _, _ => .ok none
   | .date s so e eo => do
     let y := year d
-    match ← singleInterval s so e eo with
-    | some iv => pure (some (nextChangeFromIntervals d [iv]))
-    | none =>
-      match s, (s == e : Bool) with
-      | .fixed none m dd, true =>
-        match ← singleDayFind m dd so eo d (yearsAround y 1 10) with
-        | none => pure (some dateEnd)
-        | some r => pure (some (if r.1 ≤ d then (succ? r.2).getD dateEnd else r.1))
-      | _, _ =>
+    match s, (s == e : Bool) with
+    | .fixed fy m dd, true =>
+      let years := match fy with | some fy => [(fy : Int)] | none => yearsAround y 1 10
+      match ← singleDayFind m dd so eo d years with
+      | none => pure (some dateEnd)
+      | some r => pure (some (if r.1 ≤ d then (succ? r.2).getD dateEnd else r.1))
+    | _, _ =>
+      match ← singleInterval s so e eo with
+      | some iv => pure (some (nextChangeFromIntervals d [iv]))
+      | none =>
         let starts ← boundsOn s so true (yearsAround y 1 10)
         let ends ← boundsOn e eo false (yearsAround y 1 10)
         pure (some (nextChangeFromIntervals d (intervalsFromBounds starts ends)))
